@@ -98,8 +98,9 @@ CLAIMS = {
          "the placeholder stands, or nothing), and the refinement theorem covers them: for EVERY page tree with any number of uses at any "
          "depth - in loops, conditionals, slot bodies, inside other components, one component several times with different arguments and "
          "bodies - Template.String on a loaded template whose statements are those of the tree (up to line numbers) gives exactly what the "
-         "semantics gives, an error where it says error (also in the form 'whenever the model answers at all'). Uses are independent "
-         "because a use is a node with its own arguments and body. Loader (Layouts.v): every use of a component is resolved on its own "
+         "semantics gives, an error where it says error (also in the form 'whenever the model answers at all'). Uses are independent: "
+         "on the specification a use leaves the scope chain exactly as it was (SpecScopes.v: a statement writes at most the innermost scope, "
+         "blocks, loops and uses restore the chain), so two uses in a row render what each renders alone from the same scopes. Loader (Layouts.v): every use of a component is resolved on its own "
          "(block = function of the file and that use's slots), a passed body goes to the first top-level placeholder of its name and "
          "nothing else changes (induction over the statement list), undeclared slot / slot passed twice / missing file are load errors "
          "naming the component. ALL slots of one use (SlotFill.v): ApplyComponent puts every passed body into the first top-level placeholder of its name, in "
